@@ -5,6 +5,16 @@ cases `posts-pile-up`, `join-before-running`), and reverting a fix makes those c
 -/
 import NV.C19.Sched
 
+namespace NV.C19
+
+/-- `NoLostWakeup .ringFirst`, spelled out here because Props.lean imports nothing from this file -/
+def NoLostWakeupRing : Prop :=
+  ∀ (progs : List (List POp)) (waits picks : List Nat),
+    let s := (RtSys.init progs waits .ringFirst).run picks
+    s.cph = .idle → s.rt.ring ≠ [] → s.rt.bell > 0 ∨ ∃ p ∈ s.prods, p.pendingRing = true
+
+end NV.C19
+
 namespace NV.C19.Old
 
 /-! ## event loop: the eventfd COUNTER carried the messages -/
@@ -130,3 +140,33 @@ theorem join_hangs (acts : List WAct) (h : ∀ a ∈ acts, a ≠ .thread true) :
         rcases hth with h | h <;> simp [h]
 
 end NV.C19.Old
+
+/-! ## the "optimised" order inside `async_runtime_wait`: drain the ring first, reset the doorbell afterwards -/
+
+namespace NV.C19.Swapped
+
+/-- two producers, the backend makes two waits; scheduler choices: 0, 1 = producers, 2 = backend -/
+def sys : RtSys := RtSys.init [[.post 1 1], [.post 2 2]] [8, 8] .ringFirst
+
+/-- producer 0 posts (push, ring); the backend wakes up, takes the ring (emptied), unlocks; NOW producer 1 posts
+    (push, ring); the backend resets the doorbell -/
+def picks : List Nat := [0, 0, 2, 2, 2, 1, 1, 2]
+
+/-- witness: every post has returned, the second completion sits in the ring, the doorbell counter is 0 -/
+theorem wakeup_erased :
+    (sys.run picks).cph = .idle ∧ (sys.run picks).rt = { bell := 0, ring := [(2, 2)] } ∧
+    (sys.run picks).prods = [{ todo := [] }, { todo := [] }] := by decide
+
+/-- …so the next wait goes to sleep (returns nothing) although a completion was posted before it was called,
+    and nothing will wake it until something unrelated rings the doorbell -/
+theorem next_wait_sleeps :
+    (sys.run (picks ++ [2])).delivered = [[(1, 1)], []] ∧ (sys.run (picks ++ [2])).rt.ring = [(2, 2)] := by decide
+
+/-- the full statement is false for this order -/
+theorem not_noLostWakeup : ¬ NoLostWakeupRing := by
+  intro h
+  have := h [[.post 1 1], [.post 2 2]] [8, 8] picks (by decide) (by decide)
+  revert this
+  decide
+
+end NV.C19.Swapped
